@@ -503,7 +503,10 @@ def gen_leaf(rng, o, kind=None):
         if r == "N2":
             return {"k": "Bag", "range": "N2", "f": rng.choice(NUMF), "f2": rng.choice(NUMF), "qf": gen_flavour(rng, o)}
         return {"k": "Bag", "range": "N", "f": rng.choice(NUMF), "qf": gen_flavour(rng, o)}
-    return {"k": k, "f": rng.choice(NUMF), "qf": gen_flavour(rng, o)}
+    f = rng.choice(NUMF)
+    if k in ("Minimize", "Maximize") and rng.random() < 0.15 and o.get("bool_extrema", True):
+        f = rng.choice(SELF)  # a boolean-valued quantity (lambda d: d.x > 1): the extreme is stored, and serialised, as a bool
+    return {"k": k, "f": f, "qf": gen_flavour(rng, o)}
 
 
 DEC = [-1.1, -0.7, -0.3, -0.1, 0.1, 0.2, 0.3, 0.7, 1.1, 2.2, 1.0 / 3, 2.0 / 3, 1e6 + 0.1, 1e6 + 0.7]
